@@ -98,6 +98,13 @@ CHECKS.update({
         "the BGV mod-t variant in both forms, scale-and-round and mod-t decryption with noise up to Q/4: ~1200 (quick) events, each an exact BigNat identity with untrusted quotient hints.",
    ref="DESIGN.md 4/C10", note=ARITH_NOTE + " The plain BaseConverter is not public; it is observed through the routines built on it."),
 })
+CHECKS.update({
+ "C12": dict(cat="model_checking", tech="trace validation (impl->spec): residues of every coefficient of every produced plaintext checked by TLC (BigNat) against spec/Ckks.tla: one small integer per coefficient, equal to the rounded scaled input where the preimage is known exactly",
+   text="~3000 (quick) encodings: five entry points x scales 2^0..2^(log q+3) incl. 0/negative, crossing the 64- and 128-bit paths x magnitudes 0..1e18 of both signs x chains of 3..5 (thorough ..19) primes at every level, incl. reused destinations. "
+        "TLC verifies component consistency (CRT hint checked residue by residue), x_j = round(v_j*scale) within 2^-51 relative for integer / single / coefficient-list inputs, within 2^-40 for monomial-preimage vectors (N=2 exact), zeros elsewhere, "
+        "decode deviation, recorded scale and level, and refusal of oversized magnitudes and invalid scales.", ref="DESIGN.md 4/C12",
+   note=ARITH_NOTE + " The double-precision FFT is not modelled; general vectors are covered by consistency and decode(encode(v)) = v only."),
+})
 NA_REASON = "check not built yet in this round (work in progress; see DESIGN.md section 8)"
 EXTRA = os.path.join(ROOT, "lib", "manifest_extra.json")
 
